@@ -80,7 +80,10 @@ class _OpxRange(ExcelWrapper.RangeData):
             front, *args = cells[0][0].value[:-1].rsplit(',', 4)
 
             # if this range corresponds to the top left of a CSE Array formula
-            if (args[0] == args[1] == '1') and all(
+            # (and does not reach beyond it, into a neighbouring array
+            # formula with the same text)
+            if (args[0] == args[1] == '1') and len(cells) <= int(args[2]) \
+                    and len(cells[0]) <= int(args[3]) and all(
                     isinstance(c.value, str) and c.value.startswith(front)
                     for c in flatten(cells)):
                 # apply formula to the range
